@@ -117,7 +117,7 @@ def parse_unit(path):
             elif word == "unit":
                 segs.append(("unit", rest))
             elif word == "strip_paths":
-                STRIP_PATHS.update(rest.split())
+                _strip_set().update(rest.split())
             else:
                 raise ExtractError("%s:%d: unknown directive %s" % (path, ln, word))
             continue
@@ -376,12 +376,20 @@ def _weave_fn(text, fs, fid, dserves, log, where, meta, in_trait_impl):
     return "/*@FN:%s*/\n%s%s\n/*@ENDFN:%s*/" % (fid, attrs, text, fid)
 
 
-STRIP_PATHS = set()
+import threading
+_TLS = threading.local()
+
+
+def _strip_set():
+    if not hasattr(_TLS, "strip"):
+        _TLS.strip = set()
+    return _TLS.strip
 
 
 def _strip_paths(text, log, where):
     """R17: module path prefixes (`crate::`, `crypto::` ...) are dropped: the
     single composed file has one flat namespace; only name resolution changes."""
+    STRIP_PATHS = _strip_set()
     if not STRIP_PATHS:
         return text
     toks = lex(text)
@@ -552,6 +560,7 @@ def expand_extract(d, log, meta, unit_path):
 
 
 def compose(unit_path):
+    _TLS.strip = set()
     log = X.Log()
     meta = dict(functions=[], items=[], includes=[], unit=os.path.basename(unit_path))
     segs = parse_unit(unit_path)
